@@ -190,6 +190,44 @@ Theorem other_items_untouched : forall w C labels ds name idx,
 Proof. exact other_items_untouched_lem. Qed.
 Print Assumptions other_items_untouched.
 
+(* ---- constructors are pure: construction histories on shared objects ---- *)
+(* whatever wrappers were built before on the same dataset object (any kinds, any arguments, any draws), whether
+   the dataset's bulk accessor hands out its own storage or a copy: the dataset's stored labels are what they
+   were ... *)
+Theorem constructions_leave_wrapped_labels : forall h C hist stored, history h C hist stored = stored.
+Proof. exact history_pure_lem. Qed.
+Print Assumptions constructions_leave_wrapped_labels.
+
+(* ... and a wrapper built after the history shows exactly what the same wrapper shows on a pristine copy:
+   the mapping is a function of the constructor arguments, the seed's draws and the wrapped labels alone *)
+Theorem mapping_independent_of_construction_history : forall h C hist w stored,
+  items_after h C hist w stored = w_items w C stored /\ getall_after h C hist w stored = w_getall w C stored.
+Proof. exact history_independent_lem. Qed.
+Print Assumptions mapping_independent_of_construction_history.
+
+Theorem mapping_same_after_any_two_histories : forall h1 h2 C hist1 hist2 w stored,
+  items_after h1 C hist1 w stored = items_after h2 C hist2 w stored /\ getall_after h1 C hist1 w stored = getall_after h2 C hist2 w stored.
+Proof. exact history_irrelevant_lem. Qed.
+Print Assumptions mapping_same_after_any_two_histories.
+
+(* a dataset that hands out copies is safe even from constructors that write into what they get *)
+Theorem copies_protect_the_dataset : forall wr C hist stored, history_gen wr HCopy C hist stored = stored.
+Proof. exact copies_protect_lem. Qed.
+Print Assumptions copies_protect_the_dataset.
+
+(* contrast (NOT the code that exists): a swap-label constructor assigning through the mask into the array it
+   fetched changes an array-backed dataset, and a second wrapper built afterwards differs from the same wrapper
+   on a pristine copy; with the SAME arguments the corruption is idempotent and invisible in the wrapper *)
+Example in_place_swap_changes_the_dataset :
+  let a := WSwap {| sw_apply := [true; false]; sw_new := [1; 1] |} in
+  let b := WSwap {| sw_apply := [false; true]; sw_new := [0; 1] |} in
+  history_gen swap_writes_in_place HOwn 2 [a] [0; 0] = [1; 0] /\
+  items_after_gen swap_writes_in_place HOwn 2 [a] b [0; 0] = [1; 1] /\
+  w_items b 2 [0; 0] = [0; 1] /\
+  items_after_gen swap_writes_in_place HOwn 2 [a] a [0; 0] = w_items a 2 [0; 0] /\
+  items_after_gen swap_writes_in_place HCopy 2 [a] b [0; 0] = w_items b 2 [0; 0].
+Proof. repeat split; reflexivity. Qed.
+
 (* ---- non-vacuity: every contract is satisfiable (one witness per wrapper / mode) ---- *)
 Example nv_class_groups :
   contractb (WClassGroups {| cg_cpg := 2; cg_shuffle := true; cg_draw := [1; 0; 0; 1] |}) 4 [0; 3; 3; 1; -1] = true.
